@@ -24,7 +24,8 @@ Section LoopProofs2.
   (* ================================================================ failed / abandoned trials *)
   (* C07-2 / C15: whatever the oracle does, a trial that fails (StepSolverError / EvalError) or is
      abandoned at a deadline test leaves the iterate, path and counters of accepted steps unchanged,
-     is announced as not accepted, counts as one iteration and returns 2 * lambda *)
+     is announced as not accepted and counts as one iteration; a failed trial returns 2 * lambda, an
+     abandoned one returns lambda *)
   Lemma failed_trial c (orc : oracle) clk s s' n :
     orc (itn It s) (cur It s) (rho It s) (1 / lamb It s) (disp_of It c clk s) = Fail It n ->
     body c orc clk s = inl s' ->
@@ -32,15 +33,25 @@ Section LoopProofs2.
     /\ rho It s' = rho It s /\ pst It s' = pst It s
     /\ itn It s' = S (itn It s)
     /\ announced It s' = announced It s ++ [(cur It s, cur It s, false)]
-    /\ lamb It s' = 2 * (1 / (1 / lamb It s)).
+    /\ (lamb It s' = 2 * (1 / (1 / lamb It s)) \/ lamb It s' = 1 / (1 / lamb It s)).
   Proof.
     intros HF HB.
     destruct (body_spec _ _ _ _ _ _ _ _ HB) as (nx & l & acc & k & fin & ER & BS).
-    rewrite HF in ER. apply resolve_fail in ER. destruct ER as (-> & -> & ->).
+    rewrite HF in ER. apply resolve_fail in ER. destruct ER as (-> & Hl & ->).
     destruct BS. destruct fin; [specialize (bs_fin_acc eq_refl); discriminate|].
     destruct (bs_reject eq_refl) as (A & B & C & D & E & _ & F).
     repeat split; auto.
-    destruct F as [F|(F & _)]; [auto|discriminate].
+    - destruct F as [F|(F & _)]; [auto|discriminate].
+    - rewrite bs_lamb. exact Hl.
+  Qed.
+  (* with no deadline test in the trial (or none that finds the deadline passed) the failed trial doubles lambda *)
+  Lemma failed_trial_doubles c (orc : oracle) clk s s' :
+    orc (itn It s) (cur It s) (rho It s) (1 / lamb It s) (disp_of It c clk s) = Fail It 0 ->
+    body c orc clk s = inl s' -> lamb It s' = 2 * (1 / (1 / lamb It s)).
+  Proof.
+    intros HF HB.
+    destruct (body_spec _ _ _ _ _ _ _ _ HB) as (nx & l & acc & k & fin & ER & BS).
+    rewrite HF in ER. unfold Loop.resolve in ER. cbn in ER. inversion ER; subst. destruct BS. exact bs_lamb.
   Qed.
 
   Lemma two_lambda l : 0 < l -> 2 * (1 / (1 / l)) == 2 * l /\ l < 2 * (1 / (1 / l)).
@@ -192,7 +203,7 @@ Section LoopProofs2.
   (* a deadline found expired inside a trial abandons that trial (see failed_trial for what follows) *)
   Lemma deadline_inner c clk s p dt a k : inner_checks It c clk s p
       (match a with Ans _ _ _ _ n => n | Fail _ n => n end) = (true, k) ->
-    resolve c clk s p dt a = (cur It s, 2 * (1 / dt), false, k).
+    resolve c clk s p dt a = (cur It s, 1 / dt, false, k).
   Proof. intros H. unfold Loop.resolve. rewrite H. reflexivity. Qed.
 
   Lemma inner_checks_abandon c clk s : forall n p k, inner_checks It c clk s p n = (true, k) ->
@@ -229,6 +240,42 @@ Section LoopProofs2.
     - eexists _, _. split; [reflexivity|auto].
     - rewrite Hd'. eexists _, _. split; [reflexivity|auto].
   Qed.
+
+  (* C08, deadline inside a trial, in full: a trial abandoned at one of its deadline tests (current lambda below
+     lamb_max, as it is after every earlier trial) lets the body run to its end with point, path, counters of accepted
+     steps, penalty and lambda untouched, and the very next termination test ends the solve with TimeLimit (or
+     IterationLimit), returning that same point *)
+  Lemma abandoned_trial_then_stop c (orc : oracle) clk s k :
+    (forall a b, (a <= b)%nat -> clk a <= clk b) ->
+    0 < lamb It s -> qle (c_lamb_max c) (lamb It s) = false ->
+    inner_checks It c clk s (S (cpos It s))
+      (match orc (itn It s) (cur It s) (rho It s) (1 / lamb It s) (disp_of It c clk s) with
+       | Ans _ _ _ _ n => n | Fail _ n => n end) = (true, k) ->
+    exists s', body c orc clk s = inl s'
+      /\ cur It s' = cur It s /\ nacc It s' = nacc It s /\ path It s' = path It s /\ times It s' = times It s
+      /\ rho It s' = rho It s /\ lamb It s' == lamb It s /\ itn It s' = S (itn It s)
+      /\ exists stt s1, check c clk s' = (Some stt, s1) /\ (stt = TimeLimit \/ stt = IterationLimit)
+                         /\ cur It s1 = cur It s.
+  Proof.
+    intros Hm Hpos Hmax HI.
+    pose proof (deadline_inner c clk s (S (cpos It s)) (1 / lamb It s) _ k HI) as ER.
+    destruct (inner_checks_abandon c clk s _ _ _ HI) as [Hk Hd].
+    assert (EL : 1 / (1 / lamb It s) == lamb It s) by (field; lra).
+    assert (Hmax' : qle (c_lamb_max c) (1 / (1 / lamb It s)) = false).
+    { apply qle_false. apply qle_false in Hmax. rewrite EL. exact Hmax. }
+    unfold Loop.body. fold (disp_of It c clk s). rewrite ER. cbv zeta. rewrite Hmax'.
+    destruct (disp_of It c clk s); cbn [fst snd];
+      (eexists; split; [reflexivity|]; cbn;
+       repeat (split; [try reflexivity; try exact EL|]);
+       match goal with |- exists stt s1, check c clk ?s' = _ /\ _ =>
+         destruct (check_after_deadline c clk s' (S (cpos It s) + k - 1)%nat Hm ltac:(cbn; lia)
+                     ltac:(exact (deadline_monotone c clk s s' _ _ Hm eq_refl (Nat.le_refl _) Hd)))
+           as (stt & s1 & EC & Hst);
+         exists stt, s1; split; [exact EC|]; split; [exact Hst|];
+         pose proof (check_same It it_total it_linf it_obj it_feas _ _ _ _ _ EC) as SA; destruct SA as (Sc & _); exact Sc
+       end).
+  Qed.
+
 
   (* ================================================================ C09: observers *)
   (* two configurations that differ only in what is observed (display interval, path collection),
